@@ -291,3 +291,58 @@ Proof.
   revert t; induction n as [|n IH]; intros t; [constructor|].
   cbn [seq map]. rewrite trend_from_cons. constructor; [reflexivity|apply IH].
 Qed.
+
+(* ---- singular exactly when the regressor is constant over the observations ----------------- *)
+Lemma sumP_sq_zero (g : R -> R) P :
+  sumP (fun _ b => g b ^ 2) P = 0 -> Forall (fun p => g (snd p) = 0) P.
+Proof.
+  induction P as [|[a b] P IH]; intros H; [constructor|].
+  rewrite sumP_cons in H.
+  pose proof (pow2_ge_0 (g b)) as H1.
+  pose proof (sumP_nonneg (fun _ b => g b ^ 2) P ltac:(intros; apply pow2_ge_0)) as H2.
+  constructor.
+  - cbn [snd]. assert (E : g b ^ 2 = 0) by lra. apply Rsqr_0_uniq. unfold Rsqr. lra.
+  - apply IH. lra.
+Qed.
+Lemma detB_zero_iff_constant P :
+  detB P = 0 <-> Forall (fun p => snd p = meanB P) P.
+Proof.
+  split.
+  - intros H. rewrite detB_devsum in H.
+    destruct (Req_dec (nP P) 0) as [Hn|Hn].
+    + destruct P; [constructor|]. rewrite nP_cons in Hn. pose proof (nP_nonneg P). lra.
+    + assert (Hs : sumP (fun _ b => (b - meanB P) ^ 2) P = 0).
+      { apply Rmult_integral in H. destruct H; [contradiction|assumption]. }
+      apply (sumP_sq_zero (fun b => b - meanB P)) in Hs.
+      eapply Forall_impl; [|exact Hs]. intros [a b]. cbn [snd]. lra.
+  - apply detB_constant_regressor.
+Qed.
+
+(* ---- statistics of an all-zero residual list ---------------------------------------------- *)
+Lemma zeros_sum (Z0 : list R) : Forall (fun r => r = 0) Z0 -> sumR Z0 = 0.
+Proof. induction 1 as [|r Z0 Hr _ IH]; [reflexivity|]. cbn [sumR fold_right]. fold (sumR Z0). lra. Qed.
+Lemma zeros_devsum2 (Z0 : list R) : Forall (fun r => r = 0) Z0 -> devsum 2 0 Z0 = 0.
+Proof.
+  unfold devsum. induction 1 as [|r Z0 Hr _ IH]; [reflexivity|].
+  cbn [map sumR fold_right]. fold (sumR (map (fun x => (x - 0) ^ 2) Z0)). rewrite IH, Hr. ring.
+Qed.
+Lemma zeros_mean_popvar (Z0 : list R) :
+  Forall (fun r => r = 0) Z0 -> meanR Z0 = 0 /\ popvarR Z0 = 0.
+Proof.
+  intros H. assert (Hm : meanR Z0 = 0) by (unfold meanR; rewrite zeros_sum by exact H; unfold Rdiv; ring).
+  split; [exact Hm|]. unfold popvarR, cmom. rewrite Hm, zeros_devsum2 by exact H. unfold Rdiv. ring.
+Qed.
+Lemma zeros_stats (Z0 : list R) :
+  Forall (fun r => r = 0) Z0 -> (2 <= length Z0)%nat ->
+  agg_mean_spec Z0 = Some 0 /\ agg_std_spec Z0 = Some 0 /\
+  ((3 <= length Z0)%nat -> agg_skew_spec Z0 = Some 0).
+Proof.
+  intros H Hn. destruct (zeros_mean_popvar Z0 H) as [Hm Hv]. pose proof EPS_pos as He.
+  unfold agg_mean_spec, agg_std_spec, agg_skew_spec. rewrite Hm, Hv.
+  replace (length Z0 =? 0)%nat with false by (symmetry; apply Nat.eqb_neq; lia).
+  replace (length Z0 <? 2)%nat with false by (symmetry; apply Nat.ltb_ge; lia).
+  split; [reflexivity|]. split.
+  - destruct (Rle_dec 0 EPS); [reflexivity|lra].
+  - intros H3. replace (length Z0 <? 3)%nat with false by (symmetry; apply Nat.ltb_ge; lia).
+    destruct (Rle_dec 0 EPS); [reflexivity|lra].
+Qed.
